@@ -338,6 +338,18 @@ def check_frame(it, c, key, old, selfobj):
         it.ctx.prove(e, f"{key}.frame.{f}", {"kind": "frame", "src": f"self.{f} unchanged"})
 
 
+def _pc_unsat(ctx, timeout_ms=30000):
+    try:
+        from .ctx import guarded_check
+        s = z3.Solver()
+        s.set("timeout", timeout_ms)
+        for p in ctx.pc:
+            s.add(p)
+        return guarded_check(s, timeout_ms) == z3.unsat
+    except Exception:
+        return False
+
+
 def explore(run_path, max_paths=4000, branch_timeout_ms=1500, prefix=()):
     """enumerate all paths of run_path(ctx) by re-execution; returns (paths, stats)"""
     work = [list(prefix)]
@@ -357,6 +369,12 @@ def explore(run_path, max_paths=4000, branch_timeout_ms=1500, prefix=()):
             pr = PathResult()
             pr.outcome = "out-of-subset"
             pr.error = str(e)
+            # a branch is kept when its feasibility check times out (sound for proofs), and an infeasible branch can run into
+            # an ill-typed operation (forcing an Optional that the path condition says is not None): before the function is
+            # declared out of reach the path condition gets a long budget - an unsatisfiable one means the path does not exist
+            if getattr(ctx, "feas_stats", None) and ctx.feas_stats[2] > 0 and _pc_unsat(ctx):
+                pr.outcome = "end:infeasible (decided with the long budget)"
+                pr.error = None
         pr.vcs = ctx.vcs
         pr.inputs = ctx.inputs
         pr.decisions = list(ctx.decisions)
